@@ -998,7 +998,11 @@ class SortValues(BaseSetIndexSortValues):
 
     @functools.cached_property
     def _meta(self):
-        return self.frame._meta
+        meta = self.frame._meta
+        if self.ignore_index:
+            # the sorted frame gets a fresh, unnamed index
+            meta = meta.reset_index(drop=True)
+        return meta
 
     @functools.cached_property
     def _meta_by_dtype(self):
